@@ -101,6 +101,7 @@ class Deque(
                 for i in range(len(self.items), len(value)):
                     res.append(value[i])
                 value = res
+            verify_type_and_uniqueness(deque, value, self._name, self.uniqueItems)
 
         super().__set__(instance, _DequeStruct(self, instance, value, self._name))
 
